@@ -135,6 +135,12 @@ func (cx *Ctx) forEachEvent(entries []Entry, watch func(ci ssa.CallInstruction) 
 		if w.over {
 			overflow = append(overflow, e.Role+":"+e.Module+"."+e.Name)
 		}
+		if w.cut > 0 {
+			overflow = append(overflow, fmt.Sprintf("%s:%s.%s (%d chains truncated at depth %d)", e.Role, e.Module, e.Name, w.cut, maxChainDepth))
+		}
+		if w.maxDepth > cx.maxDepthSeen {
+			cx.maxDepthSeen = w.maxDepth
+		}
 	}
 	return
 }
